@@ -375,6 +375,20 @@ def cmd_check(args):
         with ThreadPoolExecutor(max_workers=min(16, len(groups))) as ex:
             results = list(ex.map(lambda gn: verify_group(gn, scratch, rl), groups))
         extra_results = []
+        if pc.get("closed_scan"):
+            import closed_scan
+            t1 = time.time()
+            nfiles, hits = closed_scan.scan(REPO)
+            er = {"name": "closed_scan", "cmd": "vx/closed_scan.py over %s/src (non-test code)" % REPO, "status": "ok" if not hits else "failed",
+                  "obligations": 1, "files_scanned": nfiles, "wall_s": round(time.time() - t1, 2), "violations": []}
+            if nfiles == 0:
+                er.update({"status": "undecided", "reason": "no source files found", "obligations": 0})
+            for h in hits[:5]:
+                er["violations"].append({"clause": "C19.closed", "fn": "%s:%s" % (h["file"], h["line"]), "text": "no state outside App{router,api,storage,block}: " + h["what"],
+                                         "diag": {"msg": "closedness scan: " + h["what"], "rendered": "%s:%s: %s" % (h["file"], h["line"], h["text"]), "src": []}})
+            # one VIOLATION line per clause id is enough
+            er["violations"] = er["violations"][:1]
+            extra_results.append(er)
         hooks = list(pc.get("kani", [])) + (list(pc.get("thorough_kani", [])) if tier == "thorough" else [])
         for hook in hooks:
             import kani_driver
